@@ -21,7 +21,7 @@ type CB struct {
 var (
 	CBRets  = []string{"T", "F", "U", "v", "i", "tv", "odd", "gt2", "dbl", "pair", "nest", "eq77", "N1"}
 	RedRets = []string{"acc", "v", "cnt", "sum"}
-	Muts    = []string{"shrink", "push", "pop", "shift", "unshift", "setfar", "set", "del", "freeze", "defacc", "proto"}
+	Muts    = []string{"shrink", "push", "pop", "shift", "unshift", "splice", "setfar", "set", "del", "freeze", "defacc", "proto"}
 	// CmpConsistent induce a total preorder (stable order is fully determined); CmpInconsistent do not.
 	CmpConsistent   = []string{"key", "keydesc", "zero", "undef", "nan", "strkey", "big"}
 	CmpInconsistent = []string{"one", "neg", "table", "bool"}
@@ -94,6 +94,8 @@ func (r *Realm) Mut(m string, arg float64) {
 		r.Method("shift", a, nil)
 	case "unshift":
 		r.Method("unshift", a, []Value{66.0})
+	case "splice":
+		r.Method("splice", a, []Value{0.0, arg})
 	case "setfar":
 		r.Set(a, IdxKey(arg), 77.0, a)
 	case "set":
